@@ -15,6 +15,7 @@ From Coq Require Import String Ascii.
 Require Import Hdl21.Base.PyInt Hdl21.Spec.SimSpec Hdl21.Model.SimExport Hdl21.Proofs.C17Proofs.
 Require Import Hdl21.Base.Dec Hdl21.Model.C17Float Hdl21.Proofs.C17NearestProofs Hdl21.Proofs.C17FloatProofs.
 Require Import Hdl21.Proofs.C17RoundProofs.
+Require Import Hdl21.Model.C17Path Hdl21.Proofs.C17PathProofs.
 Require Import Hdl21Gen.C17Tables Hdl21Gen.C17Names.
 Open Scope list_scope.
 Open Scope Z_scope.
@@ -364,6 +365,105 @@ Print Assumptions C17_export_computed_meets_spec.
 Theorem C17_export_float_computed x f : export_float round_dec x = Ok f -> num_ok frel_nearest x (FDbl f) = true.
 Proof. apply C17_export_float_nearest. intros d. apply round_dbl_nearest. Qed.
 Print Assumptions C17_export_float_computed.
+
+(* ------------------------------------------------------------------------------------------ *)
+(* 12. paths of Include / Lib controls (second strengthening round).  The control holds pathlib's path of the text the
+       designer wrote; its text is path_str (Model/C17Path.v: leading slashes none / one / exactly two, the segments
+       without the empty and the "." ones, single slashes; ".." is a segment like any other).  The exporter writes that
+       text, verbatim.  os.path.normpath is modelled beside it: it is the same text exactly where it has nothing to strike
+       out, and the text of another path - one with fewer segments - wherever a ".." follows a named segment or the root. *)
+(* ------------------------------------------------------------------------------------------ *)
+Open Scope string_scope.
+Definition ctrl_path (c : control) : option string := match c with CInclude p | CLib p _ => Some p | _ => None end.
+Definition octrl_path (o : octrl) : option string := match o with XInclude p | XLib p _ => Some p | _ => None end.
+
+(* every Include / Lib of the attribute list appears among the controls of the output, in order, with the text of its
+   path character for character (the other controls have no path on either side) *)
+Theorem C17_paths_verbatim l k os ans cs : xattrs l k = Ok (os, ans, cs) ->
+  map octrl_path cs = map ctrl_path (ctrls_of l).
+Proof.
+  intros H. destruct (C17_partition_stable l k os ans cs H) as [_ [T _]]. clear H.
+  revert cs T. induction (ctrls_of l) as [|c cl IH]; simpl; intros cs T.
+  - inversion T; reflexivity.
+  - destruct (xctrl c) as [o|] eqn:E; simpl in T; [|discriminate].
+    destruct (traverse xctrl cl) as [os'|] eqn:E2; simpl in T; [|discriminate].
+    inversion T; subst. simpl. f_equal; [|apply IH; reflexivity].
+    destruct c as [p|p s|t| |nm v|]; simpl in E; try (inversion E; subst; reflexivity).
+    + destruct t as [[]| | | |]; simpl in E; inversion E; subst; reflexivity.
+    + destruct (xpnum v); simpl in E; inversion E; subst; reflexivity.
+Qed.
+Print Assumptions C17_paths_verbatim.
+
+(* ... and the specification accepts no other text in that place *)
+Theorem C17_path_spec_exact p sec p' sec' :
+  (ctrl_ok (CInclude p) (XInclude p') = true -> p' = p) /\
+  (ctrl_ok (CLib p sec) (XLib p' sec') = true -> p' = p /\ sec' = sec).
+Proof.
+  split; simpl; intros H.
+  - apply String.eqb_eq in H. congruence.
+  - apply andb_true_iff in H. destruct H as [A B]. apply String.eqb_eq in A, B. split; congruence.
+Qed.
+Print Assumptions C17_path_spec_exact.
+
+(* the text of a path is a fixed point: it is the text of the path it denotes ... *)
+Theorem C17_path_text_fixed w : path_str (path_str w) = path_str w.
+Proof. apply path_str_idem. Qed.
+Print Assumptions C17_path_text_fixed.
+
+(* ... and it denotes the path of the written text: same root, same segments in the same order - all segments of the
+   written text other than the empty ones and the "." ones, the ".." ones included; nothing is struck out *)
+Theorem C17_path_segments_kept w :
+  root_of (path_str w) = root_of w /\
+  parts_of (path_str w) = filter keep_seg (split_slash w) /\
+  count_occ string_dec (parts_of (path_str w)) ".." = count_occ string_dec (filter keep_seg (split_slash w)) "..".
+Proof.
+  pose proof (parse_path_str w) as H. unfold parse_path in H. inversion H as [[R P]].
+  repeat split; try assumption. rewrite !P. reflexivity.
+Qed.
+Print Assumptions C17_path_segments_kept.
+
+(* what the designer writes in normal form is exported as written *)
+Theorem C17_path_normal_text_kept r ps : forallb seg_ok ps = true ->
+  let w := render_path {| p_root := r; p_parts := ps |} in path_str w = w.
+Proof.
+  intros H w. unfold w, path_str. rewrite parse_render; [reflexivity|exact H].
+Qed.
+Print Assumptions C17_path_normal_text_kept.
+
+(* os.path.normpath gives the text of the path exactly where there is nothing to strike out ... *)
+Theorem C17_normpath_agrees w :
+  strikes (negb (proot_eqb (root_of w) RNone)) None (parts_of w) = false -> normpath w = path_str w.
+Proof. apply normpath_agrees. Qed.
+Print Assumptions C17_normpath_agrees.
+
+(* ... and the text of another path wherever a ".." follows a named segment or the root: an exporter that writes
+   normpath of the path violates the specification on every such Include and Lib (the seeded change as a theorem) *)
+Theorem C17_normpath_refuted w sec :
+  strikes (negb (proot_eqb (root_of w) RNone)) None (parts_of w) = true ->
+  normpath w <> path_str w /\
+  ctrl_ok (CInclude (path_str w)) (XInclude (normpath w)) = false /\
+  ctrl_ok (CLib (path_str w) sec) (XLib (normpath w) sec) = false.
+Proof.
+  intros H. pose proof (normpath_differs w H) as D.
+  assert (E : String.eqb (path_str w) (normpath w) = false).
+  { apply String.eqb_neq. intros E. apply D. symmetry. exact E. }
+  repeat split; [exact D| |]; simpl; rewrite E; reflexivity.
+Qed.
+Print Assumptions C17_normpath_refuted.
+
+Example C17_ex_paths :
+  path_str "/pdk/current/../corners.lib" = "/pdk/current/../corners.lib" /\
+  normpath "/pdk/current/../corners.lib" = "/pdk/corners.lib" /\
+  path_str "tb/../../shared/models.lib" = "tb/../../shared/models.lib" /\
+  normpath "tb/../../shared/models.lib" = "../shared/models.lib" /\
+  strikes false None (parts_of "tb/../../shared/models.lib") = true /\
+  strikes false None (parts_of "../../shared/./models.lib") = false /\
+  path_str "////pdk//./m.lib//" = "/pdk/m.lib" /\ path_str "//server/share/" = "//server/share" /\
+  path_str "" = "." /\ path_str "./" = "." /\ path_str "a/.." = "a/.." /\ normpath "a/.." = "." /\ normpath "/../x" = "/x" /\
+  path_str ".../..x/a..b" = ".../..x/a..b" /\
+  (forall k, xattrs [AtCtrl (CLib (path_str "a//b/../c/") "tt"); AtCtrl (CSave (TMode MAll)); AtCtrl (CInclude (path_str "/x/../y"))] k
+             = Ok ([], [], [XLib "a/b/../c" "tt"; XSaveMode MAll; XInclude "/x/../y"])).
+Proof. vm_compute. repeat split. Qed.
 
 (* ------------------------------------------------------------------------------------------ *)
 (* non-vacuity: concrete, non-trivial instances                                                *)
